@@ -27,7 +27,11 @@ deriving DecidableEq, Repr
 /-- kernel path resolution from the directory `cur` over the remaining components `comps`.  `followLast`: follow a
     symbolic link in the last component too.  `links` is the number of symbolic links that may still be followed
     (`MAXSYMLINKS` = 40 per resolution: the 41st gives `ELOOP`); `fuel` makes the recursion structural (one unit
-    per step, see `walkFuel`). -/
+    per step, see `walkFuel`).  Running out of fuel is reported as `ELOOP` too and so cannot be told from a real one.
+    No theorem is affected: wherever a theorem uses `walk` (under `RInv` after the guard) `walk_lex` /
+    `lstatR_lex` / `statR_lex` (Lemmas/ExtractREq.lean) PROVE that `walkFuel` suffices — the result is a look-up, never
+    the fuel case; only the differential area `dstlinkm` could see a false `ELOOP`, and only for a resolution of more
+    than `length + 4096` steps (40 links with very long targets), which it does not generate. -/
 def walk (fs : FS) (followLast : Bool) (links : Nat) : Nat → P → List Comp → Res
   | 0, _, _ => .err .eloop
   | fuel+1, cur, comps =>
@@ -250,5 +254,129 @@ def tarExtractArchiveR (opened : Bool) (fs : FS) (root : P) (es : List Entry) : 
   tarExtractArchiveWithMaskR opened fs root defaultMask es
 def zipExtractArchiveR (opened : Bool) (fs : FS) (root : P) (es : List Entry) : FS × Bool :=
   zipExtractArchiveWithMaskR opened fs root defaultMask es
+
+/-! ### the copy step of `extractFile` (both packages) as system calls: `OpenFile`, `write`*, deferred `Close` -/
+
+/-- faults of the destination side during one extraction: `writeLimit = some k` — no file can grow beyond `k` bytes
+    (the `write(2)` that would cross the limit writes up to it, the next one fails: `EFBIG` / `ENOSPC`); `closeFails` —
+    the paths (as handed to `OpenFile`) whose `close(2)` fails after all writes succeeded (`EIO`, a deferred write-back
+    error) -/
+structure Faults where
+  writeLimit : Option Nat := none
+  closeFails : List P := []
+
+/-- `os.OpenFile(p, O_CREATE|O_WRONLY|O_TRUNC, mode)`: the file (followed through a link in the last component) is there
+    and empty; the descriptor is its inode -/
+def openTruncR (fs : FS) (p : P) (mode : Nat) : Option (FS × Nat) :=
+  match statR fs p with
+  | .found _ (.file ino) => some ({ fs with inodes := setData fs.inodes ino [] }, ino)
+  | .missing q =>
+    some ((({ fs with inodes := fs.inodes.push { data := [], mode := mode } }).put q (.file fs.inodes.size)), fs.inodes.size)
+  | _ => none
+
+/-- the `write(2)` calls of `io.Copy` on a descriptor: afterwards the file holds `written` -/
+def writeFd (fs : FS) (ino : Nat) (written : List Nat) : FS := { fs with inodes := setData fs.inodes ino written }
+
+/-- `io.Copy(file, r)`: the bytes that reach the file and whether it returns an error — the reader's error after its
+    readable bytes (`readErr`), or the failing `write` at the limit, whichever comes first -/
+def ioCopy (payload : List Nat) (readErr : Bool) (limit : Option Nat) : List Nat × Bool :=
+  match limit with
+  | some k => if payload.length > k then (payload.take k, true) else (payload, readErr)
+  | none => (payload, readErr)
+
+/-- the deferred `if closeErr := file.Close(); closeErr != nil && err == nil { err = closeErr }`: is the result an error -/
+def deferredClose (copyErr closeErr : Bool) : Bool := if closeErr && !copyErr then true else copyErr
+
+/-- `extractFile` after its `MkdirAll`: open, copy, close; the Bool is "no error" -/
+def extractFileR (flt : Faults) (fs1 : FS) (path : P) (mode : Nat) (payload : List Nat) (readErr : Bool) : FS × Bool :=
+  match openTruncR fs1 path mode with
+  | none => (fs1, false)
+  | some (fs2, fd) =>
+    let c := ioCopy payload readErr flt.writeLimit
+    (writeFd fs2 fd c.1, !deferredClose c.2 (flt.closeFails.contains path))
+
+/-- one iteration of tar `ExtractWithMask` with the copy step of `extractFile` as system calls and destination-side faults -/
+def tarOneF (flt : Faults) (fs : FS) (root : P) (mask : Nat) (e : Entry) : FS × Bool :=
+  if e.kind = .corrupt then (fs, false) else
+  let path := cleanJoin root e.name
+  if !lexOK root path (e.kind == .dir) then (fs, false)
+  else if !ensureNoSymlinksR fs root path then (fs, false)
+  else match e.kind with
+    | .reg =>
+      match osMkdirAll fs path.dropLast (0o755 &&& mask) with
+      | none => (fs, false)
+      | some fs1 => extractFileR flt fs1 path (perm e.mode &&& mask) e.data e.short
+    | .link =>
+      match osMkdirAll fs path.dropLast (0o755 &&& mask) with
+      | none => (fs, false)
+      | some fs1 =>
+        let target := cleanJoin root e.link
+        if !lexOK root target false then (fs1, false)
+        else if !ensureNoSymlinksR fs1 root target then (fs1, false)
+        else match linkR fs1 target path with
+          | none => (fs1, false)
+          | some fs2 => (fs2, true)
+    | .symlink =>
+      match osMkdirAll fs path.dropLast (0o755 &&& mask) with
+      | none => (fs, false)
+      | some fs1 =>
+        match symlinkR fs1 e.link path with
+        | none => (fs1, false)
+        | some fs2 => (fs2, true)
+    | .dir =>
+      match osMkdirAll fs path (perm e.mode &&& mask) with
+      | none => (fs, false)
+      | some fs1 => (fs1, true)
+    | _ => (fs, true)
+
+/-- one iteration of zip `ExtractWithMask`, likewise -/
+def zipOneF (flt : Faults) (fs : FS) (root : P) (mask : Nat) (e : Entry) : FS × Bool :=
+  let path := cleanJoin root e.name
+  if !lexOK root path (e.kind == .dir) then (fs, false)
+  else if !ensureNoSymlinksR fs root path then (fs, false)
+  else match e.kind with
+    | .symlink =>
+      if e.short then (fs, false) else
+      match osMkdirAll fs path.dropLast (0o755 &&& mask) with
+      | none => (fs, false)
+      | some fs1 =>
+        match symlinkR fs1 e.link path with
+        | none => (fs1, false)
+        | some fs2 => (fs2, true)
+    | .dir =>
+      match osMkdirAll fs path (perm e.mode &&& mask) with
+      | none => (fs, false)
+      | some fs1 => (fs1, true)
+    | .corrupt => (fs, false)
+    | _ =>
+      match osMkdirAll fs path.dropLast (0o755 &&& mask) with
+      | none => (fs, false)
+      | some fs1 => extractFileR flt fs1 path (perm e.mode &&& mask) e.data e.short
+
+def tarExtractF (flt : Faults) (fs : FS) (root : P) (mask : Nat) (es : List Entry) : FS × Bool :=
+  extractWith (fun fs e => tarOneF flt fs root mask e) fs es
+def zipExtractF (flt : Faults) (fs : FS) (root : P) (mask : Nat) (es : List Entry) : FS × Bool :=
+  extractWith (fun fs e => zipOneF flt fs root mask e) fs es
+
+
+/-- the exported forms over the loops with faults (with `flt = {}` they are the forms above: `Ex.faultless_*`) -/
+def tarExtractWithMaskFromF (flt : Faults) (fs : FS) (cwd : Option P) (dst : List Nat) (mask : Nat) (es : List Entry) : FS × Bool :=
+  match absPath? cwd dst with
+  | none => (fs, false)
+  | some root => tarExtractF flt fs root mask es
+def zipExtractWithMaskFromF (flt : Faults) (fs : FS) (cwd : Option P) (dst : List Nat) (mask : Nat) (es : List Entry) : FS × Bool :=
+  match absPath? cwd dst with
+  | none => (fs, false)
+  | some root => zipExtractF flt fs root mask es
+def tarExtractDefaultF (flt : Faults) (fs : FS) (root : P) (es : List Entry) : FS × Bool := tarExtractF flt fs root defaultMask es
+def zipExtractDefaultF (flt : Faults) (fs : FS) (root : P) (es : List Entry) : FS × Bool := zipExtractF flt fs root defaultMask es
+def tarExtractArchiveWithMaskF (flt : Faults) (opened : Bool) (fs : FS) (root : P) (mask : Nat) (es : List Entry) : FS × Bool :=
+  if opened then tarExtractF flt fs root mask es else (fs, false)
+def zipExtractArchiveWithMaskF (flt : Faults) (opened : Bool) (fs : FS) (root : P) (mask : Nat) (es : List Entry) : FS × Bool :=
+  if opened then zipExtractF flt fs root mask es else (fs, false)
+def tarExtractArchiveF (flt : Faults) (opened : Bool) (fs : FS) (root : P) (es : List Entry) : FS × Bool :=
+  tarExtractArchiveWithMaskF flt opened fs root defaultMask es
+def zipExtractArchiveF (flt : Faults) (opened : Bool) (fs : FS) (root : P) (es : List Entry) : FS × Bool :=
+  zipExtractArchiveWithMaskF flt opened fs root defaultMask es
 
 end Ex
